@@ -9,3 +9,5 @@ import LettreVerif.Props.C06
 import LettreVerif.Props.C20
 import LettreVerif.Props.C18
 import LettreVerif.Props.C10
+import LettreVerif.Props.C02
+import LettreVerif.Props.C12
